@@ -219,12 +219,16 @@ class Server:
                 raw = wire.encode_segment(raw, True, False, 0)
         if opcode in (wire.READY, wire.AUTHENTICATE) and last["op"] == "STARTUP":
             self.accepted = True
-        self._feed(raw)
+        self._feed(raw, split=not segmented)
 
-    def _feed(self, raw):
+    def _feed(self, raw, split=True):
+        # Random chunking only for plain frames: reassembly of checksummed segments from partial reads is
+        # the business of the framing property (C06), where the pinned driver has known defects (a read
+        # shorter than the segment header is dropped; segment_length is 2 short for an uncompressed payload
+        # on a compressing connection) that must not be attributed to the handshake.
         conn = self.conn
         pieces = [raw]
-        if self.rng is not None and len(raw) > 2 and self.rng.random() < 0.5:
+        if split and self.rng is not None and len(raw) > 2 and self.rng.random() < 0.5:
             cut = self.rng.randrange(1, len(raw))
             pieces = [raw[:cut], raw[cut:]]
         for p in pieces:
